@@ -81,6 +81,53 @@ M = [
   "\t\treturn !n.Holder.Meta.IsSelf(m)","\t\treturn true","self candidates no longer removed in Inject"),
  ("C03-m01","C03","container/factory/factory.go",
   "\tif exposedComponent != m.Raw {","\tif false && exposedComponent != m.Raw {","early reference never proxied"),
+ # ---- second batch ----
+ ("C05-m02","C05","container/factory/factory.go",
+  "\terr := f.populateComponent(name, meta)\n\tif err != nil {\n\t\treturn nil, err\n\t}\n\n\tinstance := meta.Raw\n\twrappedInstance, err := f.postProcessorRegistrationDelegate.InitializeComponent(name, instance)\n\tif err != nil {\n\t\treturn nil, err\n\t}",
+  "\tinstance := meta.Raw\n\twrappedInstance, err := f.postProcessorRegistrationDelegate.InitializeComponent(name, instance)\n\tif err != nil {\n\t\treturn nil, err\n\t}\n\terr = f.populateComponent(name, meta)\n\tif err != nil {\n\t\treturn nil, err\n\t}","initialization before population"),
+ ("C01-m02","C01","container/factory/factory.go",
+  "\t\t\tif exposedComponent == meta {\n\t\t\t\texposedComponent = earlySingletonReference","\t\t\tif exposedComponent == meta {\n\t\t\t\texposedComponent = meta","early reference not published when initialization did not wrap"),
+ ("C02-m02","C02","container/factory/factory.go",
+  "\tearlySingletonExposure := meta.IsSingleton() && f.allowCircularReferences && f.singletonComponentRegistry.IsSingletonCurrentlyInCreation(name)",
+  "\tearlySingletonExposure := meta.IsSingleton() && f.allowCircularReferences && !f.singletonComponentRegistry.IsSingletonCurrentlyInCreation(name)","early exposure only when NOT in creation"),
+ ("C10-m02","C10","container/factory/factory.go",
+  "\tsort2.Slice(names, func(i, j string) bool {\n\t\treturn i < j\n\t})\n","\tsort2.Slice(names, func(i, j string) bool {\n\t\treturn false\n\t})\n","Refresh with a comparator that never orders (creation order = enumeration order)"),
+ ("C06-m02","C06","component_definition/property.go",
+  "\t\tfor i, m := range metas {\n\t\t\tn.Value.Index(i).Set(m.Value)","\t\tfor i, m := range metas {\n\t\t\tn.Value.Index(i).Set(metas[0].Value)","slice point filled with the first candidate only"),
+ ("C02-m03","C02","component_definition/property.go",
+  "\tif len(metas) == 0 {\n\t\tif isRequired {\n\t\t\treturn errors.Errorf(\"inject '%s':%s: self inject not allowed\", n, n.Holder.Stack())\n\t\t}\n\t\treturn nil\n\t}",
+  "\tif len(metas) == 0 {\n\t\treturn nil\n\t}","required self-only point silently ignored"),
+ ("C19-m02","C19","component_definition/arg.go",
+  "\t\tm.Set(ArgType(exp[:spIdx]), strings2.Split(exp[spIdx+1:], \" \", strings2.DefaultSplitBlock)...)",
+  "\t\tm.Set(ArgType(exp[:spIdx]), strings2.Split(exp[spIdx:], \" \", strings2.DefaultSplitBlock)...)","argument values keep the '=' sign"),
+ ("C19-m03","C19","component_definition/arg.go",
+  "\tm[argType] = append(m[argType], val...)","\tm[argType] = val","Add replaces instead of appending"),
+ ("C12-m02","C12","util/framework_helper/order_component.go",
+  "\tordered = append(ordered, priorityOrderedComponents...)\n\tordered = append(ordered, orderedComponents...)",
+  "\tordered = append(ordered, orderedComponents...)\n\tordered = append(ordered, priorityOrderedComponents...)","ordered class placed before the priority class"),
+ ("C12-m03","C12","util/framework_helper/order_component.go",
+  "\tsort2.Slice(orderedComponents, orderedComponentComparator[T])\n","","ordered class left unsorted"),
+ ("C13-m02","C13","app/app.go",
+  "\ts.ApplicationRunners = nil\n\ts.logger().Info(\"all runners started\")","\ts.logger().Info(\"all runners started\")","runner list kept after the run (a second run would repeat them)"),
+ ("C14-m02","C14","app/app.go",
+  "\t\twg.Add(len(s.CloserComponents))","\t\twg.Add(len(s.CloserComponents) - 1)","WaitGroup counts one closer too few"),
+ ("C15-m02","C15","configure/configure.go",
+  "\tc.loaders = loaders","\tc.loaders = append(c.loaders, loaders...)","SetLoaders keeps the earlier loaders"),
+ ("C04-m02","C04","container/support/singleton_component_registry.go",
+  "\tr.singletonObjects.Store(name, meta)\n\tr.earlySingletonObjects.Delete(name)\n","\tr.singletonObjects.Store(name, meta)\n","AddSingleton leaves the early reference behind"),
+ ("C07-m02","C07","util/framework_helper/component.go",
+  "\tif n, ok := c.(definition.NamingComponent); ok {","\tif n, ok := c.(definition.NamingComponent); ok && false {","custom names ignored"),
+ ("C08-m02","C08","container/processors/dependency_further_matching_processors.go",
+  "\t\t\t\tprop.Injects = nil\n\t\t\t\tcontinue","\t\t\t\tcontinue","candidates kept when narrowing finds none"),
+ ("C09-m05","C09","container/processors/dependency_further_matching_processors.go",
+  "\t\t\t\tif prop.IsRequired() {\n\t\t\t\t\treturn nil, errors.WithMessagef(err, \"field '%s' is required but not found any components\", prop.String())\n\t\t\t\t}\n","","required component point without candidates no longer an error"),
+ ("C16-m03","C16","util/el/el.go",
+  "\t\tif err != nil {\n\t\t\treturn \"\", err\n\t\t}\n\t\tresult = strings.Replace(result, elr, r, 1)","\t\t_ = err\n\t\tresult = strings.Replace(result, elr, r, 1)","replacement callback error ignored"),
+ ("C18-m05","C18","container/factory/post_processor_registration_delegate.go",
+  "\tfor _, processor := range f.componentPostProcessors {\n\t\tif ipb, ok := processor.(container.InstantiationAwareComponentPostProcessor); ok {\n\t\t\tok, err := ipb.PostProcessAfterInstantiation(meta.Raw, name)",
+  "\tfor i := len(f.componentPostProcessors) - 1; i >= 0; i-- {\n\t\tprocessor := f.componentPostProcessors[i]\n\t\tif ipb, ok := processor.(container.InstantiationAwareComponentPostProcessor); ok {\n\t\t\tok, err := ipb.PostProcessAfterInstantiation(meta.Raw, name)","properties stage applied in reverse list order"),
+ ("C20-m04","C20","app/app.go",
+  "\t\t\t\tdefer wg.Done()\n","","closer goroutine never calls Done"),
 ]
 def main():
     env = dict(os.environ, GOFLAGS="-mod=mod", GOPROXY="off", GOSUMDB="off", GOTOOLCHAIN="local")
